@@ -357,6 +357,9 @@ def run(res, build):
 
     outs = encodecorr2.run(res, res.tier)
     res.evaluations += len(outs)
+    # first clause on those paths (Props/C01totalmore.lean): `acceptedM` / `acceptedF` against the real constructors in
+    # both directions, the totality theorems' partition against what the real encoder does
+    res.evaluations += encodetotal.run_more(res, outs)
     n = 420 if res.tier == "quick" else 6000
     jobs = [(res.seed, k, None) for k in range(n)]
     cdir = common.CORPUS / "C01"
